@@ -362,7 +362,11 @@ func verifC05_abandoned() {
 	}
 	if (when == 1 && cerr != nil) || when == 2 {
 		vReach("C05.abandoned.first-message-unfinished")
-		vAssert(err2 != nil, "C05.abandoned.second-writer-must-not-start")
+		// (whether the second writer fails, waits, or the library finishes / aborts the first message for it is the
+		// implementation's choice: the property is about the wire, asserted above)
+		if err2 == nil {
+			vReach("C05.abandoned.second-writer-went-ahead")
+		}
 	}
 	c.CloseNow()
 	vObserve("abandoned", when, cerr == nil, err2 == nil)
